@@ -115,14 +115,16 @@ empty key).  Which permutation is ordered is the subject of C15. -/
 def sort (ord : Nat → Nat) (sp : Spec V) (ascend : Bool) : Spec V :=
   { sp with slots := (sortSeg (slotCmp ord ascend) (sp.slots.length + 1) sp.slots.toArray 0 sp.slots.length).toList }
 
+/-- What one source slot does to the destination slots. -/
+def putOpt (sl : Slots V) : Option (List Nat × V) → Slots V
+  | some (k, v) => put sl k v
+  | none => sl
+
 /-- `dst += src`: every live source entry is `put`, in source order. -/
 def merge (sp src : Spec V) : Spec V :=
   let n := sp.slots.length + src.slots.length
   let sp := if n > sp.cap then realloc sp n else sp
-  { sp with slots := (compact src.slots).foldl (fun sl o =>
-      match o with
-      | some (k, v) => put sl k v
-      | none => sl) sp.slots }
+  { sp with slots := (compact src.slots).foldl putOpt sp.slots }
 
 def buildOperand (ins : List (List Nat × V)) (rem : List (List Nat)) : Spec V :=
   rem.foldl remove (ins.foldl (fun sp kv => insert sp kv.1 kv.2) empty)
